@@ -6,8 +6,9 @@
 (* History: every process history that was executed (each in a fresh real *)
 (* interpreter started with PYTHONHASHSEED = its Spawn's seed), written by *)
 (* harness/histdrv/worker.py, in the order of the behaviour.  An event     *)
-(* carries the action (Spawn, CreateJunk, Generate, Name, Exit), the       *)
-(* process, and the values the real code produced:                         *)
+(* carries the action (Spawn [seed, conf = the option files the process    *)
+(* is given], CreateJunk, Generate, Name, Exit), the process, and the      *)
+(* values the real code produced:                                          *)
 (*   Generate: sigkey (UFL signatures + options), sha (of the text), made  *)
 (*   Name:     reqkey, modname, objnames, defs, idc, hasclass, klass, made *)
 (* and, for every event, cnt = UFL's real global counters afterwards.      *)
@@ -46,7 +47,7 @@ TInit == Init /\ l = 1 /\ wtext = Empty /\ wname = Empty /\ wklass = Empty
 TNext ==
   /\ l <= Len(Events)
   /\ LET e == Events[l]  p == e.proc  a == e.act IN
-     /\ CASE a = "Spawn"      -> Spawn(p, e.seed)
+     /\ CASE a = "Spawn"      -> Spawn(p, e.seed, e.conf)
           [] a = "Exit"       -> Exit(p)
           [] a = "CreateJunk" -> CreateJunk(p, e.kind, e.made)
           [] a = "Generate"   -> Generate(p, e.sigkey, e.sha, e.made, e)
